@@ -437,9 +437,14 @@ def run_tilde_home(ctx):
     # the named directory IS a symbolic link (a cache kept on a data disk), or lies BEHIND one (~/mnt -> /data/...)
     _run_named_home(ctx, "~/linked-cache", "home", "c18:symlink_home", link=("linked-cache", "disk/cache"))
     _run_named_home(ctx, "~/mnt/tw-cache", "home", "c18:symlink_home", link=("mnt", "disk2"))
+    # a directory component that merely LOOKS like a variable reference ($STAGE, ${USER}, %TEMP%) while a variable of that
+    # name is defined: the value names a directory, it is not a template
+    env = {"STAGE": "nightly", "USER": "ci-runner", "TEMP": "scratch-tmp"}
+    _run_named_home(ctx, "~/jobs/$STAGE/cache", "home", "c18:tilde_home", extra_env=env)
+    _run_named_home(ctx, "runs/${USER}/%TEMP%/tw", "cwd", "c18:relative_home", extra_env=env)
 
 
-def _run_named_home(ctx, value, where, mon, link=None):
+def _run_named_home(ctx, value, where, mon, link=None, extra_env=None):
     names = [n for _t, n in _ds.documented_names() if not _ds.is_bundled(n)]
     pick = [names[i] for i in ctx.rng("tilde", len(value)).choice(len(names), size=4, replace=False)]
     scratch = _ds.scratch_root()
@@ -456,7 +461,8 @@ def _run_named_home(ctx, value, where, mon, link=None):
         steps = [{"op": "net", "default": "good"}] + [{"op": "by_name", "name": n, "substitute": True} for n in pick]
         steps += [{"op": "net", "default": "urlerror"}] + [{"op": "by_name", "name": n, "substitute": True} for n in pick]
         rc, out, err = _ds.run_child({"home": real, "home_mode": "tilde", "user_home": user_home,
-                                      "tilde_value": value, "steps": steps}, scratch)
+                                      "tilde_value": value, "steps": steps,
+                                      "extra_env": extra_env or {}}, scratch)
         if out is None:
             raise RuntimeError("dataset child failed rc=%s: %s" % (rc, err))
         res = out["results"]
